@@ -50,6 +50,7 @@ contract(
 contract(
     "liquid2.builtin.filters.string:slice_",
     props=["C19", "C02"],
+    partial_domain="string input only: the list branch (`return list(val[_start:end])`) is outside this domain",
     params={"val": Str, "start": Union(Int, Str, Float, NoneT), "length": Union(Int, Str, Float, NoneT)},
     globals_={"MAX_STR_INT": Int},
     # strings are shorter than 2**62 characters (a CPython object cannot be larger than sys.maxsize bytes)
